@@ -225,6 +225,10 @@ func (c *compiler) evalUserFunction(node *userFunction, args []ast.Expression) (
 	if len(args) < len(node.parameters) {
 		return nil, fmt.Errorf("too few arguments in call to function (%d for %d)", len(args), len(node.parameters))
 	}
+	if len(args) > len(node.parameters) {
+		// surplus arguments would be dropped without even being evaluated
+		return nil, fmt.Errorf("too many arguments in call to function (%d for %d)", len(args), len(node.parameters))
+	}
 
 	// evaluate every argument in the caller's scope before binding any parameter
 	vals := make([]interface{}, len(node.parameters))
